@@ -220,15 +220,15 @@ Fixpoint is_prefix (a b : bytes) : bool :=
 
 (* writes: the buffers the client handed to the socket, in call order; stream: the bytes that reached the peer.
    The reader must recover exactly the written buffers, each a well-formed client frame; only the last buffers may be
-   missing or cut (a connection that was closed, or a write still blocked when the run ends): `complete` = nothing may
-   be missing. *)
-Definition stream_ok (writes : list bytes) (stream : bytes) (complete : bool) : bool :=
+   missing or cut (a write that was interrupted, or that was made after the peer had closed): the first `must` buffers -
+   those whose write call returned normally while the peer was still there - have to be present completely. *)
+Definition stream_ok (writes : list bytes) (stream : bytes) (must : nat) : bool :=
   let '(fs, rest) := split_stream (S (length stream)) stream in
   list_eqb zlist_eqb fs (firstn (length fs) writes)
   && forallb client_frame_ok fs
   && forallb client_frame_ok writes
   && is_prefix rest (concat (skipn (length fs) writes))
-  && (negb complete || (Nat.eqb (length fs) (length writes) && match rest with [] => true | _ => false end)).
+  && Nat.leb must (length fs).
 
 (* ---- correspondence cases (generated by harness/props/c13.py) --------------------------------- *)
 Definition obytes_eqb : option bytes -> option bytes -> bool := option_eqb zlist_eqb.
@@ -239,7 +239,7 @@ Inductive case :=
 | CDispatch (tag : Z) (props headers : list entry) (payload : bytes) (expect : option bytes)
 | CDiscard (which : Z) (reason : text) (expect : option bytes)
 | CRdispatch (s : bytes) (expect : option (Z * bytes))
-| CStream (writes : list bytes) (stream : bytes) (complete : bool).
+| CStream (writes : list bytes) (stream : bytes) (must : nat).
 
 Definition check_case (c : case) : bool :=
   match c with
